@@ -800,7 +800,7 @@ Section HistProofs.
     - cbn [sp_run] in H. inversion Hall as [|? ? Hr Ht]; subst. cbn [fst] in Hr.
       unfold sp_mon in H. destruct (sp_env n g i); [|discriminate H].
       destruct (sp_check down g i o) eqn:Hc; [|discriminate H].
-      destruct (sp_run (sp_next n sw g i o) t) as [[[gf' a'] d']|] eqn:Hrun; [|discriminate H].
+      destruct (sp_run n sw down (sp_next n sw g i o) t) as [[[gf' a'] d']|] eqn:Hrun; [|discriminate H].
       inversion H; subst; clear H. specialize (IH _ _ _ _ Ht Hrun).
       unfold sp_next in IH. rewrite Hr in IH. cbn [s_q] in IH.
       unfold sp_check in Hc. apply andb_true_iff in Hc as [Hc _]. apply andb_true_iff in Hc as [Hq _].
